@@ -30,6 +30,13 @@ def run(check: Check, repo: Repo, tier: str) -> None:
     S.schema_errors_first(check, repo)
     S.validation_cache(check, repo)
     S.reserved_names(check, repo)
+    S.unvalidated_elements(check, repo)
+    from rules import sdl_rules as D
+
+    D.assume_valid_fresh(check, repo)
+    from rules import language_rules as L
+
+    L.optional_truthiness(check, repo, ["type.validate"], str_attrs=("deprecation_reason",))
     from rules import coercion_rules as K
     from rules import total_rules as T
     from sa.raises import MayRaise
